@@ -8,6 +8,7 @@ import UnifexModel.Driver.Entry
 import UnifexModel.Generated.Clock
 import UnifexModel.Proto.TimerQueue
 import UnifexModel.Proto.TimerOp
+import UnifexModel.Proto.EpollTimer
 
 namespace Unifex.Driver.Entries
 open Unifex.Proto
@@ -52,5 +53,9 @@ def cfgThreeEqual : TimerOp.Config :=
 def timerop : ModelEntries :=
   ("timerop", (TimerOp.configs ++ [("three_equal", cfgThreeEqual)]).map (fun (n, c) =>
       (n, mkEntry (TimerOp.sys c) TimerOp.obsOf (TimerOp.final c))))
+
+def epolltimer : ModelEntries :=
+  ("epolltimer", EpollTimer.configs.map (fun (n, c) =>
+      (n, mkEntry (EpollTimer.sys c) EpollTimer.obsOf (EpollTimer.final c))))
 
 end Unifex.Driver.Entries
